@@ -248,6 +248,42 @@ def _attribute(mod, known, bucket, case):
     return None
 
 
+def _attribute_bucket(modname, known, bucket, cases):
+    """(ids of the findings the leading cases belong to, index of the first case no finding covers or None)."""
+    mod = importlib.import_module(modname)
+    kids = []
+    for i, case in enumerate(cases):
+        kid = _attribute(mod, known, bucket, case)
+        if kid:
+            kids.append(kid)
+        else:
+            return kids, i
+    return kids, None
+
+
+def _attribute_buckets(mod, known, work, jobs):
+    if len(work) < 8 or os.environ.get("VERIF_INPROC"):
+        return [_attribute_bucket(mod.__name__, known, b, [v["case"] for v in lst]) for b, lst in work]
+    import concurrent.futures as cf
+    import multiprocessing as mp
+
+    out = [None] * len(work)
+    try:
+        with cf.ProcessPoolExecutor(max_workers=jobs or min(16, os.cpu_count() or 1), mp_context=mp.get_context("spawn"), initializer=_init_worker) as ex:
+            futs = {ex.submit(_attribute_bucket, mod.__name__, known, b, [v["case"] for v in lst]): i for i, (b, lst) in enumerate(work)}
+            for f in cf.as_completed(futs):
+                try:
+                    out[futs[f]] = f.result()
+                except Exception:  # noqa: BLE001  (a worker died: decide that bucket here)
+                    out[futs[f]] = None
+    except Exception:  # noqa: BLE001
+        traceback.print_exc()
+    for i, (b, lst) in enumerate(work):
+        if out[i] is None:
+            out[i] = _attribute_bucket(mod.__name__, known, b, [v["case"] for v in lst])
+    return out
+
+
 def _load_case(path):
     if not os.path.isabs(path):
         path = os.path.join(HOME, path)
@@ -369,20 +405,19 @@ def run_property(pid, tier, budget=1.0, jobs=0, use_known=True):
                     json.dump({"property": pid, "bucket": bucket, "detail": v["detail"], "size": v["size"], "case": v["case"]}, f, default=str)
     attributed = Counter()
     reported = []
+    cap = getattr(mod, "ATTRIBUTION_CAP", 6)  # region predicates may re-execute the case: examine the smallest few per bucket
+    work = []
     for bucket in sorted(merged["violations"]):
         lst = sorted(merged["violations"][bucket], key=lambda v: (v.get("known") is not None, v["size"]))
-        fresh = []
-        cap = getattr(mod, "ATTRIBUTION_CAP", 6)  # region predicates may re-execute the case: examine the smallest few per bucket
-        for v in lst[:cap]:
-            kid = _attribute(mod, known, bucket, v["case"])
-            if kid:
-                attributed[kid] += 1
-            else:
-                fresh.append(v)
-                break
-        if not fresh:
+        work.append((bucket, lst[:cap]))
+    # attribution is independent per bucket; predicates that re-execute rule units cost seconds per case, so large runs spread the buckets
+    outcomes = _attribute_buckets(mod, known, work, jobs)
+    for (bucket, lst), (kids, fresh_i) in zip(work, outcomes):
+        for kid in kids:
+            attributed[kid] += 1
+        if fresh_i is None:
             continue
-        v = fresh[0]
+        v = lst[fresh_i]
         case = v["case"]
         if tier == "thorough" and hasattr(mod, "shrink"):
             try:
